@@ -11,6 +11,7 @@ pub mod c10;
 pub mod c11;
 pub mod c12;
 pub mod c13;
+pub mod c14;
 pub mod c15;
 pub mod c16;
 
@@ -23,7 +24,7 @@ pub struct CheckDef {
 }
 
 pub fn all() -> Vec<CheckDef> {
-    vec![c01::def(), c02::def(), c03::def(), c04::def(), c05::def(), c06::def(), c07::def(), c08::def(), c09::def(), c10::def(), c11::def(), c12::def(), c13::def(), c15::def(), c16::def()]
+    vec![c01::def(), c02::def(), c03::def(), c04::def(), c05::def(), c06::def(), c07::def(), c08::def(), c09::def(), c10::def(), c11::def(), c12::def(), c13::def(), c14::def(), c15::def(), c16::def()]
 }
 
 pub fn find(id: &str) -> Option<CheckDef> {
@@ -42,6 +43,7 @@ pub fn replay_other(kind: &str, fr: &crate::runner::FailRec, dir: &std::path::Pa
         "c11" => c11::replay(fr, dir),
         "c12" => c12::replay(fr, dir),
         "c13" => c13::replay(fr, dir),
+        "c14" => c14::replay(fr, dir),
         "c15" => c15::replay(fr, dir),
         "c16" => c16::replay(fr, dir),
         _ => Some(crate::interp::Failure::new("harness_panic", format!("unknown case kind {}", kind))),
